@@ -19,8 +19,35 @@ RULE = ("model: liveness TimedReturn (a timed wait always ends, also while the d
         "inside a send while timed operations - sent, queued behind it, or the blocked one itself - reach their deadlines")
 
 
+def extra(chk):
+    """Timeouts through the adapter chains (direct, EntriesOnly, PagedResults in every order): the server falls silent at every
+    position of scripts of one to three pages; the search was given a timeout; the wait must end with a timeout error (state
+    Error, finish() = 88) and everything before it must be as without the silence. TLC: MCStream_c12.cfg (TimeoutLaw)."""
+    import os
+    import common as C
+    import streamlane
+    out = os.path.join(chk.dir, "mcstream-c12.out")
+    res = C.tlc("MCStream", "MCStream_c12.cfg", out, workers=4, timeout=900, heap="2g")
+    chk.model("MCStream/MCStream_c12.cfg", res)
+    rp = os.path.join(chk.dir, "stream-replay.json")
+    C.harness("stream-run", ["replay", out, rp], timeout=900)
+    os.remove(out)
+    rep = C.load(rp)
+    n_to = rep["counters"].get("impl-error:Timeout", 0)
+    mine, rest = streamlane._own_view(rep, "c12:")
+    mine["lane"] = "stream-replay (silent server, timeout set)"
+    chk.report(mine, "S->I: MCStream_c12 behaviours (a server falling silent under every adapter chain)")
+    streamlane._note_rest(chk, rest, "S->I MCStream_c12.cfg")
+    chk.extra["stream_timeouts"] = dict(behaviours=rep["evaluations"], timeouts_observed=n_to)
+    if res["ok"] and (n_to == 0 or rep["counters"].get("chain:PR", 0) == 0):
+        chk.tool_error("vacuity: the stream lane observed no timeout / no paged chain")
+    chk.rule.append("stream lane: %d behaviours on the five adapter chains with the server falling silent at every position of one- to "
+                    "three-page scripts and a timeout set on the search (TimeoutLaw: the wait ends with a timeout error, and only "
+                    "such a wait does); %d timeouts observed" % (rep["evaluations"], n_to))
+
+
 def run(tier):
-    return L.run_lane("C12", tier, MC[tier], PROFILES[tier], RULE, scripts=SCRIPTS[tier], selftests=[("timeout-one-tick-longer", L.corrupt_time, "time")])
+    return L.run_lane("C12", tier, MC[tier], PROFILES[tier], RULE, scripts=SCRIPTS[tier], selftests=[("timeout-one-tick-longer", L.corrupt_time, "time")], extra=extra)
 
 
 def replay(path):
